@@ -42,9 +42,14 @@ def nonbyte_measure(full, types=""):
     return None
 
 
-def byte_measure(full):
+def byte_measure(full, types=""):
     """calls whose integer answer is a byte quantity whatever they were given: the closure stops here"""
     last = full.rsplit("::", 1)[-1]
+    both = full + " " + types
+    # an item of char_indices() carries the byte offset of its character, whichever item was asked for (`nth(k)` with k a character
+    # count is the legitimate conversion from characters to bytes); not so under enumerate(), whose index counts
+    if "str::iter::CharIndices" in both and "Enumerate<" not in both and last in ("next", "nth", "last", "find", "rfind", "next_back", "peek", "nth_back", "find_map"):
+        return True
     if last in ("len_utf8",):
         return True
     if last == "len" and ("str::" in full or "String" in full or "[u8]" in full or "<u8>" in full):
@@ -121,7 +126,7 @@ class Units:
                     if u:
                         out.append((u, FL.short(full), t.get("ln")))
                         continue
-                    if byte_measure(full):
+                    if byte_measure(full, _types(t)):
                         continue
                     st.extend(t["args"])
                 else:
@@ -204,7 +209,7 @@ class Units:
             seen.add(pl["l"])
             for dd in d.defs.get(pl["l"], []):
                 if dd[2] == "call":
-                    if byte_measure(_full(dd[3])):
+                    if byte_measure(_full(dd[3]), _types(dd[3])):
                         return True
                     st.extend(dd[3]["args"])
                 else:
